@@ -165,6 +165,15 @@ class Driver:
         busy_users = {u for i, u, st in ups if i in busy}
         free = tw.w.settings.transfers.limits.upload_slots - len(busy)
         waiting = sorted({u for i, u, st in ups if st == 'QUEUED' and i not in neg and users[u][0] != 'OFFLINE' and u not in busy_users})
+        # a slot whose upload is INITIALIZING/UPLOADING although no task works on it any more is not in use
+        dead = [i for i, u, st in ups if st in ('INITIALIZING', 'UPLOADING') and i not in neg]
+        if dead:
+            live_users = {u for i, u, st in ups if i in busy and i not in dead}
+            blocked = sorted({u for i, u, st in ups if st == 'QUEUED' and i not in neg and users[u][0] != 'OFFLINE' and u not in live_users})
+            if blocked and free + len(dead) > 0:
+                self.viol.append(('slot-held-by-upload-without-task',
+                                  f'upload(s) {dead} are INITIALIZING/UPLOADING with no task running for them; eligible user(s) {blocked} wait '
+                                  f'for a slot that is not in use', self.nops))
         if free > 0 and waiting:
             text = f'{free} free slot(s), eligible user(s) {waiting} with a queued upload, management job idle and no cycle requested'
             if self.cycles_at_raise is not None and tw.cycles == self.cycles_at_raise:
@@ -314,6 +323,22 @@ class Driver:
             if u < len(tw.names):
                 tw.set_status(self.uname(u), STATUS[st], priv)
                 evs.append(f'Status {u} {ST_COQ[st]} {"true" if priv else "false"}')
+        elif kind == 'Priv':   # the server announces that user u bought privileges (AddPrivilegedUser; no status message)
+            u = op[1]
+            if u < len(tw.names):
+                from aioslsk.protocol.messages import AddPrivilegedUser
+                st = tw.um.get_user_object(self.uname(u)).status.name
+                tw.w.server_send(AddPrivilegedUser.Response(self.uname(u)))
+                tw.settle(60)
+                evs.append(f'Status {u} {ST_COQ[st]} true')
+        elif kind == 'PrivList':   # the server sends the complete list of privileged users (PrivilegedUsers)
+            from aioslsk.protocol.messages import PrivilegedUsers
+            lst = [x for x in op[1] if x < len(tw.names)]
+            tw.w.server_send(PrivilegedUsers.Response(users=[self.uname(x) for x in lst] + ['nobody-we-know']))
+            tw.settle(60)
+            for x in range(len(tw.names)):
+                st = tw.um.get_user_object(self.uname(x)).status.name
+                evs.append(f'Status {x} {ST_COQ[st]} {"true" if x in lst else "false"}')
         elif kind == 'F':
             u, b = op[1], op[2]
             if u < len(tw.names):
@@ -386,9 +411,13 @@ def next_op(rng, d: Driver, free_running=False):
         return ['RQ', rng.choice(other)]
     if r < 0.90:
         return ['S', rng.choice([0, 1, 2, 3, 4]), rng.choice(['field', 'field', 'limits', 'transfers'])]
-    if r < 0.96:
+    if r < 0.95:
         return ['St', rng.randrange(nu), rng.choice(['OFFLINE', 'AWAY', 'ONLINE']), rng.random() < 0.3]
-    return ['F', rng.randrange(nu), rng.random() < 0.6]
+    if r < 0.975:
+        return ['F', rng.randrange(nu), rng.random() < 0.6]
+    if r < 0.99:
+        return ['Priv', rng.randrange(nu)]
+    return ['PrivList', sorted(rng.sample(range(nu), rng.randrange(0, nu + 1)))]
 
 
 def execute(pop, ops, driven=True):
@@ -423,8 +452,73 @@ def lowering_script(rng):
     return pop, ops
 
 
+def reprioritise_script(rng):
+    """Directed family: all slots taken, several users waiting (already ranked by a cycle); the class of a waiting user
+    changes through one of the channels that exist (status message, friend list, AddPrivilegedUser, PrivilegedUsers);
+    a slot is given back; the next cycle must serve the now highest class."""
+    n = rng.randrange(3, 6)
+    k = rng.choice([1, 1, 2])
+    pop = {'slots': k, 'nusers': n, 'mode': rng.choice(['race', 'fallback']), 'refuse': [], 'hold': []}
+    ops = [['St', u, rng.choice(['ONLINE', 'AWAY', 'ONLINE']), False] for u in range(n) if rng.random() < 0.7]
+    ops += [['F', u, True] for u in range(n) if rng.random() < 0.25]
+    order = list(range(n))
+    rng.shuffle(order)
+    ops += [['Q', u] for u in order] + [['C'], ['R'], ['C']]
+    for _ in range(rng.randrange(1, 3)):
+        u = rng.randrange(n)
+        ops.append(rng.choice([['Priv', u], ['Priv', u], ['PrivList', sorted(rng.sample(range(n), rng.randrange(1, n)))],
+                               ['F', u, rng.random() < 0.7], ['St', u, rng.choice(['ONLINE', 'AWAY']), rng.random() < 0.5]]))
+    # give slots back: the peers of the active uploads refuse / the user aborts them
+    ops += [['Reply', i, False] for i in range(len(order))]      # a no-op for the uploads that are not active
+    if rng.random() < 0.3:
+        ops.append(['A', rng.randrange(len(order))])
+    ops += [['C'], ['R']]
+    return pop, ops
+
+
+def giveback_script(rng):
+    """Directed family for the real management job: every slot taken, more eligible users waiting, then ONE event gives a
+    slot back (pause / abort of an active upload, the peer refusing it, the upload completing, its reply timing out) and
+    nothing else happens: the job must start the next upload on its own."""
+    k = rng.choice([1, 1, 2])
+    n = rng.randrange(k + 1, 6)
+    pop = {'slots': k, 'nusers': n, 'mode': rng.choice(['race', 'fallback']), 'refuse': [], 'hold': []}
+    ops = [['St', u, rng.choice(['ONLINE', 'AWAY']), rng.random() < 0.2] for u in range(n) if rng.random() < 0.6]
+    order = list(range(n))
+    rng.shuffle(order)
+    ops += [['Q', u] for u in order] + [['T', 0.5]]
+    back = rng.choice(['P', 'A', 'Reply', 'Eof', 'T31'])
+    if back in ('P', 'A'):
+        ops += [[back, i] for i in range(n)][:n] if rng.random() < 0.3 else [[back, rng.randrange(n)]]
+    elif back == 'Reply':
+        ops += [['Reply', i, False] for i in range(n)]
+    elif back == 'Eof':
+        ops += [['Reply', i, True] for i in range(n)] + [['Eof', i] for i in range(n)]
+    else:
+        ops += [['T', 31.0]]
+    ops += [['T', 1.0]]
+    return pop, ops
+
+
 def random_case(rng, nops, driven=True):
-    if driven and rng.random() < 0.15:
+    r_fam = rng.random()
+    if not driven and r_fam < 0.4:
+        pop, script = giveback_script(rng)
+        d = Driver(pop, driven=False)
+        ops = []
+        try:
+            for op in script:
+                ops.append(op)
+                d.do(op)
+            d.nops += 1
+            evs = d.pre_settle()
+            d.observe(evs, [])
+            return pop, ops, d.rows, d.viol, d.order_bad
+        finally:
+            d.close()
+    if driven and r_fam < 0.12:
+        pop, script = reprioritise_script(rng)
+    elif driven and r_fam < 0.27:
         pop, script = lowering_script(rng)
     else:
         pop, script = gen_pop(rng), None
